@@ -29,6 +29,15 @@ Definition keys_eqb (a b : list ident) : bool := list_eqb N.eqb (sortN a) (sortN
 Definition kv_eqb (p q : ident * Q) : bool := N.eqb (fst p) (fst q) && Qeq_bool (snd p) (snd q).
 Definition dict_seq_eqb (a b : list (ident * Q)) : bool := list_eqb kv_eqb (sortKV a) (sortKV b).
 
+Definition optq_eqb (a b : option Q) : bool :=
+  match a, b with Some x, Some y => Qeq_bool x y | None, None => true | _, _ => false end.
+Fixpoint insKL (p : ident * list (option Q)) (l : list (ident * list (option Q))) :=
+  match l with [] => [p] | q :: r => if N.leb (fst p) (fst q) then p :: l else q :: insKL p r end.
+Definition sortKL (l : list (ident * list (option Q))) := fold_right insKL [] l.
+Definition kl_eqb (p q : ident * list (option Q)) : bool :=
+  N.eqb (fst p) (fst q) && list_eqb optq_eqb (snd p) (snd q).
+Definition volx_eqb (a b : list (ident * list (option Q))) : bool := list_eqb kl_eqb (sortKL a) (sortKL b).
+
 Definition obs_eqb (a b : obs) : bool :=
   match a, b with
   | BVal x, BVal y => result_eqb Qeq_bool x y
@@ -38,6 +47,7 @@ Definition obs_eqb (a b : obs) : bool :=
   | BItems x, BItems y => result_eqb dict_seq_eqb x y
   | BChange w1 e1 _, BChange w2 e2 _ => Bool.eqb w1 w2 && Bool.eqb e1 e2      (* hash values are not modelled *)
   | BEq e1 _, BEq e2 _ => Bool.eqb e1 e2
+  | BVolX x, BVolX y => result_eqb volx_eqb x y
   | _, _ => false
   end.
 
@@ -49,8 +59,8 @@ Definition is_ok {A} (r : result A) : bool := match r with Ok _ => true | Err _ 
 Definition obs_compat (a b : obs) : bool :=
   match a, b with
   | BVal (Ok _), BVal (Ok _) | BKeys (Ok _), BKeys (Ok _) | BLen (Ok _), BLen (Ok _)
-  | BItems (Ok _), BItems (Ok _) => obs_eqb a b
-  | BVal _, BVal _ | BKeys _, BKeys _ | BLen _, BLen _ | BItems _, BItems _ => true
+  | BItems (Ok _), BItems (Ok _) | BVolX (Ok _), BVolX (Ok _) => obs_eqb a b
+  | BVal _, BVal _ | BKeys _, BKeys _ | BLen _, BLen _ | BItems _, BItems _ | BVolX _, BVolX _ => true
   | _, _ => obs_eqb a b
   end.
 
@@ -84,6 +94,38 @@ Fixpoint names_of (s : scope) : list ident :=
 
 Definition nodup_list (l : list ident) : bool := Nat.eqb (length (nodupN l)) (length l).
 
+(* the names marked volatile in some root *)
+Fixpoint vol_names (s : scope) : list ident :=
+  match s with
+  | SDict _ vl => vl
+  | SMapped o _ => vol_names o
+  | SRange i _ _ => vol_names i
+  | SJoint l => flat_map (fun p => vol_names (snd p)) l
+  end.
+
+(* dependency expressions, one environment of constants `env` (the j-th of the operation): read `env` as a change of
+   the volatile constants (nc = env restricted to the volatile names); if it changes no non-volatile constant and
+   gives every constant of the rebuilt scope its value, the j-th reported value of every volatile parameter must be
+   the value the parameter has in the rebuilt scope.  With env = the current constants this is the current value. *)
+Definition spec_volx_env (s : scope) (ve : list (ident * list (option Q))) (j : nat) (env : list (ident * Q)) : bool :=
+  let nc := filter (fun kv => mem (fst kv) (vol_names s)) env in
+  let s' := rebuild s nc in
+  if env_for_b env s' && negb (changes_non_volatile s nc) && is_ok (denote_scope s) then
+    match denote_scope s' with
+    | Ok d' => forallb (fun xv => match lookup d' (fst xv) with
+                                  | Some q => match nth j (snd xv) None with Some q' => Qeq_bool q q' | None => false end
+                                  | None => true
+                                  end) ve
+    | Err _ => false       (* a change of constants cannot make a denoting scope non-denoting *)
+    end
+  else true.
+
+Fixpoint spec_volx_envs (s : scope) (ve : list (ident * list (option Q))) (j : nat) (envs : list (list (ident * Q))) : bool :=
+  match envs with
+  | [] => true
+  | env :: r => spec_volx_env s ve j env && spec_volx_envs s ve (S j) r
+  end.
+
 Definition spec_obs (s : scope) (o : op) (b : obs) : bool :=
   let den := denote_scope s in
   match o, b with
@@ -116,6 +158,15 @@ Definition spec_obs (s : scope) (o : op) (b : obs) : bool :=
       match r with
       | Ok ks => nodup_list ks
                  && forallb (fun x => Bool.eqb (mem x ks) (depends_on_volatile s x)) (ks ++ names_of s)
+      | Err _ => negb (is_ok den)
+      end
+  | OVolX envs, BVolX r =>
+      match r with
+      | Ok ve => let ks := map fst ve in
+                 nodup_list ks
+                 && forallb (fun x => Bool.eqb (mem x ks) (depends_on_volatile s x)) (ks ++ names_of s)
+                 && forallb (fun xv => Nat.eqb (length (snd xv)) (length envs)) ve
+                 && spec_volx_envs s ve 0 envs
       | Err _ => negb (is_ok den)
       end
   | OChange nc, BChange w e h => Bool.eqb w (changes_non_volatile s nc) && e && h
